@@ -1,6 +1,7 @@
 package main
 
 import (
+	"go/types"
 	"strings"
 
 	"golang.org/x/tools/go/ssa"
@@ -335,6 +336,34 @@ func runC16(e *Engine, r *Report) {
 			for _, s := range e.SitesIn(po, rmv) {
 				g1, _ := e.guardedOnAllPaths(s.(ssa.Instruction), reqBool("", e.callV(isOrphan), true))
 				r.check(g1, "GD-orphans", "processOrphans removes flagged directories only", e.ipos(s), "only orphan-flagged directories are removed through remove()", "remove() is reached for a directory that is not flagged as orphan")
+			}
+			// a complete (unflagged) snapshot directory is removed only when it is not the recorded one
+			if isSS := e.Func("(*dragonboat.snapshotter).isSnapshot"); isSS != nil {
+				rmAll := e.throughHelpers(func(c ssa.CallInstruction) bool { return isIfaceInvoke(c, "RemoveAll") })
+				k := 0
+				forEachInstr(po, func(in ssa.Instruction) {
+					c, ok := in.(*ssa.Call)
+					if !ok || !rmAll(in) {
+						return
+					}
+					if g, _ := e.guardedOnAllPaths(c, reqBool("", e.callV(isSS), true)); !g {
+						return // the orphan / zombie branches
+					}
+					k++
+					isBoolPhi := func(v ssa.Value) bool {
+						ph, ok := stripConv(v).(*ssa.Phi)
+						if !ok {
+							return false
+						}
+						bt, ok := ph.Type().Underlying().(*types.Basic)
+						return ok && bt.Kind() == types.Bool
+					}
+					r.guard("GD-orphans", "processOrphans removes a complete snapshot directory", c,
+						reqAny("no snapshot is recorded, or the directory's index differs from the recorded snapshot's",
+							reqBool("", isBoolPhi, true),
+							reqCmp("", "!=", anyV(), fieldV(ssIndex))))
+				})
+				r.floor("GD-orphans (complete directories)", k, 1)
 			}
 		}
 	}
